@@ -154,3 +154,96 @@ def ob_b1(ctx: Ctx) -> Outcome:
 
 
 ob_b1.wants_all_cores = True
+
+
+# ---- B2: a pure value-TYPE change of one leaf is tampering, under every key ----------------------------------------------------
+def _content(x):
+    """position-free, type-sensitive content of an AST (what 'the document says')"""
+    import dataclasses
+
+    if dataclasses.is_dataclass(x) and not isinstance(x, type):
+        return (type(x).__name__,) + tuple((f.name, _content(getattr(x, f.name))) for f in dataclasses.fields(x) if f.name not in ("line", "column", "tokens", "raw_pattern"))
+    if isinstance(x, dict):
+        return ("dict",) + tuple((k, _content(v)) for k, v in x.items())
+    if isinstance(x, (list, tuple)):
+        return ("list",) + tuple(_content(v) for v in x)
+    return (type(x).__name__, repr(x))
+
+
+TYPE_KEYS = ("K", "PATTERN", "REGEX", "TYPE", "ENUM", "VERSION_X", "STATUS")
+TYPE_VALUES = ((404, "404"), (0, "0"), (-7, "-7"), (2.5, "2.5"), (True, "true"), (False, "false"), (None, "null"))
+
+
+def type_toggle_cases():
+    """(document as built through the API, the same document with ONE leaf's type toggled) - assignments, list items,
+    inline-map values and block children, under ordinary and constructor-looking keys"""
+    from octave_mcp.core.ast_nodes import Assignment, Block, Document, InlineMap, ListValue
+
+    for key in TYPE_KEYS:
+        for a, b in TYPE_VALUES:
+            yield f"{key}::{a!r} vs {b!r}", Document(name="D", sections=[Assignment(key=key, value=a), Assignment(key="Z", value="z")]), Document(name="D", sections=[Assignment(key=key, value=b), Assignment(key="Z", value="z")])
+            yield f"[{key}::{a!r}] vs {b!r}", Document(name="D", sections=[Assignment(key="L", value=ListValue(items=[InlineMap(pairs={key: a}), "x"]))]), Document(name="D", sections=[Assignment(key="L", value=ListValue(items=[InlineMap(pairs={key: b}), "x"]))])
+            yield f"B:{key}::{a!r} vs {b!r}", Document(name="D", sections=[Block(key="B", children=[Assignment(key=key, value=a)])]), Document(name="D", sections=[Block(key="B", children=[Assignment(key=key, value=b)])])
+    for a, b in TYPE_VALUES:
+        yield f"[{a!r},x] vs {b!r}", Document(name="D", sections=[Assignment(key="L", value=ListValue(items=[a, "x"]))]), Document(name="D", sections=[Assignment(key="L", value=ListValue(items=[b, "x"]))])
+        yield f"META.F {a!r} vs {b!r}", Document(name="D", meta={"TYPE": "T", "F": a}, sections=[Assignment(key="K", value=1)]), Document(name="D", meta={"TYPE": "T", "F": b}, sections=[Assignment(key="K", value=1)])
+
+
+def _toggle_one(i: int):
+    from octave_mcp.core.emitter import emit
+    from octave_mcp.core.parser import parse
+    from octave_mcp.core.sealer import SealStatus, seal_document, verify_seal
+
+    label, d1, d2 = list(type_toggle_cases())[i]
+    sealed1 = seal_document(d1)
+    # in memory: d2's content carrying d1's SEAL section (the two ASTs differ in the type of one leaf)
+    import copy
+
+    seal_nodes = [s for s in sealed1.sections if getattr(s, "key", None) == "SEAL"]
+    if seal_nodes and _content(d1.sections) != _content(d2.sections) or _content(d1.meta) != _content(d2.meta):
+        forged = copy.deepcopy(d2)
+        forged.sections = list(forged.sections) + copy.deepcopy(seal_nodes)
+        st0 = verify_seal(forged).status
+        if st0 != SealStatus.INVALID:
+            return f"{label}: in memory, a document differing from the sealed one only in the TYPE of one leaf verifies as {st0.value} under the other's seal (both canonicalise to {emit(d1)!r})"
+    text1 = emit(sealed1)
+    back1 = parse(text1)
+    if verify_seal(back1).status != SealStatus.VERIFIED:
+        return f"{label}: the sealed document does not verify after write + read: {text1!r}"
+    # the tampered document: d2's content with d1's seal section
+    seal_sec = [s for s in back1.sections if getattr(s, "key", None) == "SEAL" or type(s).__name__ == "Section" and getattr(s, "key", "") == "SEAL"]
+    text2 = emit(seal_document(d2))
+    h1 = re.search(r"HASH::\"?([0-9a-f]{64})", text1)
+    h2 = re.search(r"HASH::\"?([0-9a-f]{64})", text2)
+    if not h1 or not h2:
+        return f"{label}: no HASH line in the sealed text"
+    tampered_text = text2.replace(h2.group(1), h1.group(1))
+    t = parse(tampered_text)
+    body1 = [s for s in back1.sections if s not in seal_sec]
+    if _content([s for s in t.sections if getattr(s, "key", None) != "SEAL"]) == _content([s for s in body1 if getattr(s, "key", None) != "SEAL"]) and _content(t.meta) == _content(back1.meta):
+        return None  # the two spellings read as the same content (e.g. the emitter's documented auto-quote of a bare PATTERN word): not a tamper
+    st = verify_seal(t).status
+    if st != SealStatus.INVALID:
+        return f"{label}: a document whose content differs only in the TYPE of one leaf carries the other's seal and verifies as {st.value}: sealed {text1!r} | tampered {tampered_text!r}"
+    return None
+
+
+def replay_toggle(i: int):
+    p = _toggle_one(i)
+    return bool(p), p or "type toggle is detected (INVALID) or reads as the same content"
+
+
+def ob_b2(ctx: Ctx) -> Outcome:
+    cases = list(type_toggle_cases())
+    wits = []
+    for i in range(len(cases)):
+        try:
+            p = _toggle_one(i)
+        except Exception as e:  # noqa: BLE001
+            p = None if type(e).__name__ in ("ParserError", "LexerError") else f"{cases[i][0]}: {type(e).__name__}: {e}"
+        if p:
+            wits.append(Witness(what=p[:900], input={"case": i}, key=f"type-toggle|{cases[i][0].split(' ')[0][:20]}", replay={"runner": "props.C15_b:replay_toggle", "args": {"i": i}}, confirmed=True))
+    extra = dict(bound=f"{len(cases)} pairs of API-built documents differing in the type of one leaf (int / float / bool / null vs the string of the same spelling) as assignment, inline-map value, block child (keys {list(TYPE_KEYS)}), list item and META field: the seal of one must not verify the other", evaluations=len(cases), distinct_nontrivial=len(cases), rule="a case is one pair")
+    if wits:
+        return Outcome.refuted("real sealer", wits[:10], **extra)
+    return Outcome.ok("real sealer", **extra)
